@@ -26,7 +26,37 @@ def _targets(M):
                         yield (cls, a, v)
 
 
+def _fn_defaults(M):
+    """mutable default argument values of the functions and methods of the repo's modules (a default dict/list/set is process-wide state, too)"""
+    seen = set()
+    for name in M.names():
+        mod = M._mods[name]
+        fns = []
+        for k, v in list(vars(mod).items()):
+            if isinstance(v, types.FunctionType) and getattr(v, '__module__', None) == mod.__name__:
+                fns.append((k, v))
+            elif isinstance(v, type) and getattr(v, '__module__', None) == mod.__name__:
+                for a, m in list(vars(v).items()):
+                    f = m.__func__ if isinstance(m, (staticmethod, classmethod)) else m
+                    if isinstance(f, types.FunctionType):
+                        fns.append(('%s.%s' % (k, a), f))
+        for qn, f in fns:
+            if id(f) in seen:
+                continue
+            seen.add(id(f))
+            for i, d in enumerate(f.__defaults__ or ()):
+                if isinstance(d, (dict, list, set)):
+                    yield ('%s.%s' % (getattr(mod, '__name__', name), qn), f, i, d)
+            for kk, d in (f.__kwdefaults__ or {}).items():
+                if isinstance(d, (dict, list, set)):
+                    yield ('%s.%s' % (getattr(mod, '__name__', name), qn), f, kk, d)
+
+
+_DSNAP = {}
+
+
 def snapshot(M):
+    _DSNAP[M.kind] = [(qn, f, i, copy.deepcopy(d)) for qn, f, i, d in _fn_defaults(M)]
     snap = []
     for owner, attr, val in _targets(M):
         try:
@@ -37,6 +67,18 @@ def snapshot(M):
 
 
 def restore(M):
+    cur_defaults = {(id(f), i): d for _, f, i, d in _fn_defaults(M)}
+    for qn, f, i, val in _DSNAP.get(M.kind, []):
+        d = cur_defaults.get((id(f), i))
+        fresh = copy.deepcopy(val)
+        if isinstance(d, dict):
+            d.clear()
+            d.update(fresh)
+        elif isinstance(d, list):
+            d[:] = fresh
+        elif isinstance(d, set):
+            d.clear()
+            d.update(fresh)
     for owner, attr, val in _SNAP.get(M.kind, []):
         cur = owner.__dict__.get(attr) if isinstance(owner, type) else getattr(owner, attr, None)
         fresh = copy.deepcopy(val)
@@ -81,4 +123,15 @@ def diff(M, ignore=()):
     for owner, attr, val in list(_targets(M)):
         if (id(owner), attr) not in known:
             out.append('%s.%s (new)' % (getattr(owner, '__name__', str(owner)), attr))
+    cur_defaults = {(id(f), i): d for _, f, i, d in _fn_defaults(M)}
+    for qn, f, i, val in _DSNAP.get(M.kind, []):
+        name = '%s(default %s)' % (qn, i)
+        if name in ignore:
+            continue
+        try:
+            same = cur_defaults.get((id(f), i)) == val
+        except Exception:   # noqa
+            same = False
+        if not same:
+            out.append(name)
     return sorted(out)
